@@ -199,8 +199,8 @@ fn fmt_err(e: &TickPatchError) -> String {
 struct AStore {
     nodes: BTreeMap<[u8; 32], [u8; 32]>,
     edges: BTreeMap<[u8; 32], ([u8; 32], [u8; 32], [u8; 32])>,
-    natt: BTreeMap<[u8; 32], String>,
-    eatt: BTreeMap<[u8; 32], String>,
+    natt: BTreeMap<[u8; 32], AttachmentValue>,
+    eatt: BTreeMap<[u8; 32], AttachmentValue>,
 }
 
 fn abstract_store(s: &GraphStore) -> (AStore, Vec<String>) {
@@ -223,10 +223,10 @@ fn abstract_store(s: &GraphStore) -> (AStore, Vec<String>) {
         }
     }
     for (id, v) in s.iter_node_attachments() {
-        a.natt.insert(id.0, fmt_att(v));
+        a.natt.insert(id.0, v.clone());
     }
     for (id, v) in s.iter_edge_attachments() {
-        a.eatt.insert(id.0, fmt_att(v));
+        a.eatt.insert(id.0, v.clone());
     }
     (a, flags)
 }
@@ -237,8 +237,8 @@ fn dump_store(a: &AStore) -> String {
         "{}~{}~{}~{}",
         j(a.nodes.iter().map(|(k, t)| format!("{}.{}", hid(k), hid(t))).collect()),
         j(a.edges.iter().map(|(k, (f, t, ty))| format!("{}.{}.{}.{}", hid(k), hid(f), hid(t), hid(ty))).collect()),
-        j(a.natt.iter().map(|(k, v)| format!("{}.{}", hid(k), v)).collect()),
-        j(a.eatt.iter().map(|(k, v)| format!("{}.{}", hid(k), v)).collect())
+        j(a.natt.iter().map(|(k, v)| format!("{}.{}", hid(k), fmt_att(v))).collect()),
+        j(a.eatt.iter().map(|(k, v)| format!("{}.{}", hid(k), fmt_att(v))).collect())
     )
 }
 
@@ -639,6 +639,57 @@ fn classify(a: &WarpState, b: &WarpState, d: &[WarpOp], u: &Universe, fallback: 
     fallback.into()
 }
 
+/// A program that any rule set could emit for the transition a -> b: delete every edge of the stores that
+/// survive, delete the nodes that disappear, upsert every node/edge of b and write every attachment slot of b.
+/// When it commits (applies through the patch constructor and yields exactly b) the pair is a committed tick.
+fn rebuild_program(a: &WarpState, b: &WarpState, u: &Universe) -> Vec<WarpOp> {
+    let mut ops = Vec::new();
+    for w in &u.warps {
+        let wid = WarpId(*w);
+        match (a.instance(&wid), b.instance(&wid)) {
+            (Some(_), None) => ops.push(WarpOp::DeleteWarpInstance { warp_id: wid }),
+            (_, Some(ib)) => ops.push(WarpOp::UpsertWarpInstance { instance: ib.clone() }),
+            _ => {}
+        }
+        let Some(sb) = b.store(&wid) else { continue };
+        let (ab, _) = abstract_store(sb);
+        let aa = a.store(&wid).map(|s| abstract_store(s).0).unwrap_or_default();
+        for (e, (f, _, _)) in &aa.edges {
+            ops.push(WarpOp::DeleteEdge { warp_id: wid, from: NodeId(*f), edge_id: EdgeId(*e) });
+        }
+        for n in aa.nodes.keys() {
+            if !ab.nodes.contains_key(n) {
+                ops.push(WarpOp::DeleteNode { node: NodeKey { warp_id: wid, local_id: NodeId(*n) } });
+            }
+        }
+        for (n, ty) in &ab.nodes {
+            let node = NodeKey { warp_id: wid, local_id: NodeId(*n) };
+            ops.push(WarpOp::UpsertNode { node, record: NodeRecord { ty: TypeId(*ty) } });
+            ops.push(WarpOp::SetAttachment { key: AttachmentKey::node_alpha(node), value: ab.natt.get(n).cloned() });
+        }
+        for (e, (f, t, ty)) in &ab.edges {
+            ops.push(WarpOp::UpsertEdge {
+                warp_id: wid,
+                record: EdgeRecord { id: EdgeId(*e), from: NodeId(*f), to: NodeId(*t), ty: TypeId(*ty) },
+            });
+            ops.push(WarpOp::SetAttachment {
+                key: AttachmentKey::edge_beta(EdgeKey { warp_id: wid, local_id: EdgeId(*e) }),
+                value: ab.eatt.get(e).cloned(),
+            });
+        }
+    }
+    ops
+}
+
+/// Is a -> b a committed tick of the rebuild program?
+fn is_committed_tick(a: &WarpState, b: &WarpState, u: &Universe) -> bool {
+    let ops = rebuild_program(a, b, u);
+    let p = WarpTickPatchV1::new(0, [7u8; 32], TickCommitStatus::Committed, vec![], vec![], ops);
+    let mut s = a.clone();
+    let mut fl = Vec::new();
+    p.apply_to_state(&mut s).is_ok() && dump_state(&s, &u.warps, &mut fl) == dump_state(b, &u.warps, &mut fl)
+}
+
 struct Replay {
     diff: Vec<WarpOp>,
     res: String,
@@ -692,7 +743,8 @@ fn replay_oracle(a: &WarpState, b: &WarpState, u: &Universe, must_apply: bool, w
             ("ok".to_string(), sd)
         }
         Err(e) => {
-            if must_apply {
+            // tick clause: a transition that some program commits must replay from its emitted patch
+            if must_apply || (wf && is_committed_tick(a, b, u)) {
                 fails.push(classify(a, b, &d, u, "tick-patch-fails-to-apply"));
             }
             (fmt_err(e), "-".to_string())
@@ -788,12 +840,350 @@ fn case_seq(m: &BTreeMap<String, String>) -> String {
     format!("res={res} st={st} wf={wf} diff={diff} rres={rres} rst={rst} oracle={}", oracle_str(fails))
 }
 
+// ------------------------------------------------------------------------------------------ real engine ticks
+
+static SCRIPT: std::sync::Mutex<Vec<WarpOp>> = std::sync::Mutex::new(Vec::new());
+
+fn script_match(_view: warp_core::GraphView<'_>, _scope: &NodeId) -> bool {
+    true
+}
+fn script_exec(_view: warp_core::GraphView<'_>, _scope: &NodeId, delta: &mut warp_core::TickDelta) {
+    if let Ok(g) = SCRIPT.lock() {
+        for op in g.iter() {
+            delta.push(op.clone());
+        }
+    }
+}
+fn script_footprint(_view: warp_core::GraphView<'_>, _scope: &NodeId) -> warp_core::Footprint {
+    let mut fp = warp_core::Footprint::default();
+    if let Ok(g) = SCRIPT.lock() {
+        for op in g.iter() {
+            match op {
+                WarpOp::UpsertNode { node, .. } => fp.n_write.insert(*node),
+                WarpOp::DeleteNode { node } => {
+                    fp.n_write.insert(*node);
+                    fp.a_write.insert(AttachmentKey::node_alpha(*node));
+                }
+                WarpOp::UpsertEdge { warp_id, record } => {
+                    fp.n_write.insert_with_warp(*warp_id, record.from);
+                    fp.e_write.insert_with_warp(*warp_id, record.id);
+                }
+                WarpOp::DeleteEdge { warp_id, from, edge_id } => {
+                    fp.n_write.insert_with_warp(*warp_id, *from);
+                    fp.e_write.insert_with_warp(*warp_id, *edge_id);
+                    fp.a_write.insert(AttachmentKey::edge_beta(EdgeKey { warp_id: *warp_id, local_id: *edge_id }));
+                }
+                WarpOp::SetAttachment { key, .. } | WarpOp::OpenPortal { key, .. } => fp.a_write.insert(*key),
+                _ => {}
+            }
+        }
+    }
+    fp.factor_mask = 1;
+    fp
+}
+
+/// k=tick a=S w=<warp> ops=<ops>[/<ops>...]: one scripted rule emits the ops of each tick inside warp `w`
+/// of a real Engine; every committed tick's patch must replay the pre-state to Engine::state(), the
+/// replayed state root must be the snapshot's, and jump_to_tick must land on the same state.
+fn case_tick(m: &BTreeMap<String, String>) -> String {
+    use warp_core::{ConflictPolicy, Engine, PatternGraph, RewriteRule, SchedulerKind};
+    let mut u = Universe::default();
+    let da = parse_state(&m["a"], &mut u);
+    let ticks: Vec<Vec<WarpOp>> = m["ops"].split('/').map(parse_ops).collect();
+    for t in &ticks {
+        u.add_ops(t);
+    }
+    let tw = WarpId(hex32(&m["w"]));
+    let mut rng = Rng(m.get("seed").and_then(|s| s.parse().ok()).unwrap_or(1));
+    let a = build_state(&da, &mut rng);
+    let mut fails: Vec<String> = Vec::new();
+    let mut fl = Vec::new();
+    // unique parentless root instance
+    let roots_: Vec<NodeKey> = u
+        .warps
+        .iter()
+        .filter_map(|w| a.instance(&WarpId(*w)).filter(|i| i.parent.is_none()).map(|i| NodeKey { warp_id: WarpId(*w), local_id: i.root_node }))
+        .collect();
+    if roots_.len() != 1 {
+        return "tick res=skip:no-unique-root oracle=ok".into();
+    }
+    let root = roots_[0];
+    // descent chain of the target warp
+    let mut chain = Vec::new();
+    let mut cur = tw;
+    for _ in 0..8 {
+        match a.instance(&cur).and_then(|i| i.parent) {
+            Some(k) => {
+                chain.push(k);
+                cur = match k.owner {
+                    AttachmentOwner::Node(n) => n.warp_id,
+                    AttachmentOwner::Edge(e) => e.warp_id,
+                };
+            }
+            None => break,
+        }
+    }
+    chain.reverse();
+    let Ok(mut engine) = Engine::with_state(a.clone(), root, SchedulerKind::Radix, 0) else {
+        return "tick res=skip:engine-rejects-state oracle=ok".into();
+    };
+    let rule = RewriteRule {
+        id: [0xC4u8; 32],
+        name: "c04-script",
+        left: PatternGraph { nodes: vec![] },
+        matcher: script_match,
+        executor: script_exec,
+        compute_footprint: script_footprint,
+        factor_mask: 1,
+        conflict_policy: ConflictPolicy::Abort,
+        join_fn: None,
+    };
+    if engine.register_rule(rule).is_err() {
+        return "tick res=skip:register oracle=ok".into();
+    }
+    let mut results = Vec::new();
+    let mut committed = 0usize;
+    for ops in &ticks {
+        if let Ok(mut g) = SCRIPT.lock() {
+            *g = ops.clone();
+        }
+        let pre = engine.state().clone();
+        let tx = engine.begin();
+        let scope = root.local_id;
+        let outcome = catch(std::panic::AssertUnwindSafe(|| {
+            match engine.apply_in_warp(tx, tw, "c04-script", &scope, &chain) {
+                Ok(warp_core::ApplyResult::Applied) => {}
+                other => return Err(format!("apply:{other:?}")),
+            }
+            engine.commit_with_receipt(tx).map_err(|e| format!("commit:{e:?}"))
+        }));
+        match outcome {
+            Ok(Ok((snapshot, _receipt, patch))) => {
+                committed += 1;
+                results.push("committed".to_string());
+                let post = engine.state().clone();
+                let mut replay = pre.clone();
+                let r = patch.apply_to_state(&mut replay);
+                let pd = dump_state(&post, &u.warps, &mut fl);
+                match r {
+                    Ok(()) => {
+                        if dump_state(&replay, &u.warps, &mut fl) != pd {
+                            fails.push(classify(&pre, &post, patch.ops(), &u, "tick-replay-third-state"));
+                        } else if let Ok(ws) = WorldlineState::new(replay.clone(), root) {
+                            if ws.state_root() != snapshot.state_root {
+                                fails.push("replayed-state-root-differs-from-snapshot".into());
+                            }
+                        }
+                    }
+                    Err(_) => fails.push(classify(&pre, &post, patch.ops(), &u, "tick-patch-fails-to-apply")),
+                }
+                if patch.validate_digest().is_err() || patch.digest() != snapshot.patch_digest {
+                    fails.push("patch-digest-not-committed".into());
+                }
+                fails.extend(probe_state(&post, &u));
+            }
+            Ok(Err(e)) => {
+                results.push(format!("rejected:{}", e.split(':').next().unwrap_or("")));
+                break;
+            }
+            Err(p) => {
+                results.push(format!("panic:{}", p.chars().take(40).collect::<String>().replace(' ', "_")));
+                break;
+            }
+        }
+    }
+    // history replay from U0 must land on the committed states
+    if committed > 0 && results.iter().all(|r| r == "committed") {
+        let end = dump_state(engine.state(), &u.warps, &mut fl);
+        match catch(std::panic::AssertUnwindSafe(|| engine.jump_to_tick(committed - 1))) {
+            Ok(Ok(())) => {
+                if dump_state(engine.state(), &u.warps, &mut fl) != end {
+                    fails.push("jump-to-tick-third-state".into());
+                }
+            }
+            _ => fails.push("jump-to-tick-fails".into()),
+        }
+    }
+    fails.extend(fl);
+    format!("tick res={} oracle={}", results.join(","), oracle_str(fails))
+}
+
+// ------------------------------------------------------------------------------------------ exhaustive universe
+
+/// All well-formed states over {root instance 1 (root node 1), optional child instance 4 hanging off one slot,
+/// nodes {1,2}, edge ids {9,a}, attachment in {none, atom x, atom y, descend}}; `ety` edge types.
+fn enum_states(ety: &[u8]) -> Vec<String> {
+    let id = |x: u8| {
+        let mut b = [0u8; 32];
+        b[31] = x;
+        b
+    };
+    let atts: Vec<Option<AttachmentValue>> = vec![
+        None,
+        Some(AttachmentValue::Atom(AtomPayload::new(TypeId(id(5)), Bytes::from(vec![1u8])))),
+        Some(AttachmentValue::Atom(AtomPayload::new(TypeId(id(5)), Bytes::from(vec![2u8])))),
+        Some(AttachmentValue::Descend(WarpId(id(4)))),
+    ];
+    let mut out = Vec::new();
+    // node options: None = absent, Some(att index)
+    let nopts: Vec<Option<usize>> = std::iter::once(None).chain((0..4).map(Some)).collect();
+    for n1 in &nopts {
+        for n2 in &nopts {
+            let present: Vec<u8> = [(1u8, n1), (2u8, n2)].iter().filter(|(_, o)| o.is_some()).map(|(n, _)| *n).collect();
+            // edge options
+            let mut eopts: Vec<Option<(u8, u8, u8, usize)>> = vec![None];
+            for f in &present {
+                for t in &present {
+                    for ty in ety {
+                        for at in 0..4 {
+                            eopts.push(Some((*f, *t, *ty, at)));
+                        }
+                    }
+                }
+            }
+            for e1 in &eopts {
+                for e2 in &eopts {
+                    let mut desc = Vec::new();
+                    if let Some(3) = n1 {
+                        desc.push(format!("n.1.1.a"));
+                    }
+                    if let Some(3) = n2 {
+                        desc.push(format!("n.1.2.a"));
+                    }
+                    if let Some((_, _, _, 3)) = e1 {
+                        desc.push(format!("e.1.9.b"));
+                    }
+                    if let Some((_, _, _, 3)) = e2 {
+                        desc.push(format!("e.1.a.b"));
+                    }
+                    if desc.len() > 1 {
+                        continue;
+                    }
+                    let nodes: Vec<String> = [(1u8, n1), (2u8, n2)].iter().filter(|(_, o)| o.is_some()).map(|(n, _)| format!("{n:x}.7")).collect();
+                    let natt: Vec<String> = [(1u8, n1), (2u8, n2)]
+                        .iter()
+                        .filter_map(|(n, o)| o.and_then(|i| atts[i].as_ref().map(|v| format!("{n:x}.{}", fmt_att(v)))))
+                        .collect();
+                    let edges: Vec<String> = [(9u8, e1), (10u8, e2)]
+                        .iter()
+                        .filter_map(|(e, o)| o.map(|(f, t, ty, _)| format!("{e:x}.{f:x}.{t:x}.{ty:x}")))
+                        .collect();
+                    let eatt: Vec<String> = [(9u8, e1), (10u8, e2)]
+                        .iter()
+                        .filter_map(|(e, o)| o.and_then(|(_, _, _, i)| atts[i].as_ref().map(|v| format!("{e:x}.{}", fmt_att(v)))))
+                        .collect();
+                    let j = |v: &Vec<String>| if v.is_empty() { "-".to_string() } else { v.join(",") };
+                    let mut st = format!("1~1~-~{}~{}~{}~{}", j(&nodes), j(&edges), j(&natt), j(&eatt));
+                    if let Some(k) = desc.first() {
+                        st.push_str(&format!("|4~5~{k}~5.6~-~-~-"));
+                    }
+                    out.push(st);
+                }
+            }
+        }
+    }
+    out
+}
+
+/// k=enum sample=<n|all> seed=<u64> ety=<hex list, default 8>: ordered pairs of the universe through the
+/// implementation's own oracle (multi-threaded).
+fn case_enum(m: &BTreeMap<String, String>) -> String {
+    let ety: Vec<u8> = m.get("ety").map(|s| s.split(',').map(|x| u8::from_str_radix(x, 16).unwrap()).collect()).unwrap_or_else(|| vec![8]);
+    let descs = enum_states(&ety);
+    let mut u = Universe::default();
+    let mut rng = Rng(7);
+    let mut states = Vec::new();
+    for d in &descs {
+        let di = parse_state(d, &mut u);
+        states.push(build_state(&di, &mut rng));
+    }
+    let n = states.len();
+    let mut fl = Vec::new();
+    let dumps: Vec<String> = states.iter().map(|s| dump_state(s, &u.warps, &mut fl)).collect();
+    let wf: Vec<bool> = states.iter().map(|s| ref_ok(s, &u) && portal_invariants_hold(s, &u)).collect();
+    let nwf = wf.iter().filter(|x| **x).count();
+    let build_bad = dumps.iter().zip(descs.iter()).filter(|(a, b)| a != b).count();
+    let sample = m.get("sample").cloned().unwrap_or_else(|| "all".into());
+    let seed: u64 = m.get("seed").and_then(|s| s.parse().ok()).unwrap_or(1);
+    let nthreads = 16usize;
+    let total: u64 = if sample == "all" { (n as u64) * (n as u64) } else { sample.parse().unwrap_or(1000) };
+    let results: Vec<(u64, u64, u64, BTreeMap<String, (u64, String)>)> = std::thread::scope(|sc| {
+        let hs: Vec<_> = (0..nthreads)
+            .map(|t| {
+                let (states, dumps, wf, u, sample) = (&states, &dumps, &wf, &u, &sample);
+                sc.spawn(move || {
+                    let mut ok = 0u64;
+                    let mut err = 0u64;
+                    let mut pairs = 0u64;
+                    let mut fails: BTreeMap<String, (u64, String)> = BTreeMap::new();
+                    let mut rng = Rng(seed ^ (t as u64).wrapping_mul(0x9E37_79B9));
+                    let mut run = |i: usize, j: usize| {
+                        if !(wf[i] && wf[j]) {
+                            return;
+                        }
+                        pairs += 1;
+                        let r = replay_oracle(&states[i], &states[j], u, false, true);
+                        if r.res == "ok" {
+                            ok += 1;
+                        } else {
+                            err += 1;
+                        }
+                        for f in r.fails {
+                            let e = fails.entry(f).or_insert((0, format!("{}#{}", dumps[i], dumps[j])));
+                            e.0 += 1;
+                        }
+                    };
+                    if sample == "all" {
+                        let mut i = t;
+                        while i < n {
+                            for j in 0..n {
+                                run(i, j);
+                            }
+                            i += nthreads;
+                        }
+                    } else {
+                        let k = total / nthreads as u64;
+                        for _ in 0..k {
+                            let i = rng.below(n);
+                            let j = rng.below(n);
+                            run(i, j);
+                        }
+                    }
+                    (pairs, ok, err, fails)
+                })
+            })
+            .collect();
+        hs.into_iter().map(|h| h.join().unwrap()).collect()
+    });
+    let (mut pairs, mut ok, mut err) = (0u64, 0u64, 0u64);
+    let mut fails: BTreeMap<String, (u64, String)> = BTreeMap::new();
+    for (p, o, e, f) in results {
+        pairs += p;
+        ok += o;
+        err += e;
+        for (k, (c, ex)) in f {
+            let en = fails.entry(k).or_insert((0, ex));
+            en.0 += c;
+        }
+    }
+    let fs: Vec<String> = fails.iter().map(|(k, (c, _))| format!("{k}:{c}")).collect();
+    let ex: Vec<String> = fails.iter().map(|(k, (_, e))| format!("{k}|{e}")).collect();
+    format!(
+        "enum states={n} wf={nwf} buildbad={build_bad} pairs={pairs} ok={ok} err={err} fails={} ex={} oracle={}",
+        if fs.is_empty() { "-".into() } else { fs.join(",") },
+        if ex.is_empty() { "-".into() } else { ex.join(";") },
+        if fails.is_empty() && build_bad == 0 { "ok" } else { "FAIL" }
+    )
+}
+
 fn main() {
     for line in read_cases() {
         let m = kv(&line);
         let out = match m.get("k").map(String::as_str) {
             Some("pair") => case_pair(&m),
             Some("seq") => case_seq(&m),
+            Some("tick") => case_tick(&m),
+            Some("enum") => case_enum(&m),
             other => format!("unknown-case-kind {:?}", other),
         };
         println!("{out}");
